@@ -115,9 +115,12 @@ ResetTimer ==
   /\ Clk("c") = clock
   /\ info' = [info EXCEPT ![Ev.id].dl = TAdd(clock, info[Ev.id].orig)]
   /\ UNCHANGED <<status, imm, slot, polled, errhup, kready, clock, intr>> /\ UNCHANGED RunVars
+\* from a callback, from outside the loop, or (sig) from a signal handler while the loop is inside the first poll of a run: with no
+\* callback in progress the request takes effect at once - nothing more is dispatched in this run
 Interrupt ==
-  /\ IsEvent("interrupt") /\ CtxOK /\ intr' = TRUE
-  /\ UNCHANGED <<status, info, imm, slot, polled, errhup, kready, clock>> /\ UNCHANGED RunVars
+  /\ IsEvent("interrupt") /\ (IF Has("sig") THEN inRun /\ cur = 0 /\ Ev.ctx = 0 ELSE CtxOK) /\ intr' = TRUE
+  /\ intrStop' = (IF Has("sig") /\ inRun /\ cur = 0 THEN TRUE ELSE intrStop)
+  /\ UNCHANGED <<status, info, imm, slot, polled, errhup, kready, clock, inRun, spin, ran, slept, runnable0, stopRc, cur, done>>
 DoneSet == /\ IsEvent("done_set") /\ done' = TRUE
            /\ UNCHANGED <<status, info, imm, slot, polled, errhup, kready, clock, intr, inRun, spin, ran, slept, runnable0, stopRc, intrStop, cur>>
 
@@ -200,7 +203,7 @@ RunRet ==
      ELSE /\ Ev.rc = stopRc                                                       \* first non-zero result, unchanged; 0 otherwise
           /\ IF spin THEN (stopRc # 0 \/ done \/ intr)
              ELSE /\ (ran = 0 /\ ~intr) => ~RunnableNow                           \* woke for something => ran it before returning
-                  /\ runnable0 => (ran >= 1 /\ ~slept)                            \* progress without waiting
+                  /\ (runnable0 /\ ~(intr /\ ran = 0)) => (ran >= 1 /\ ~slept)  \* progress without waiting (unless a signal handler asked the loop to stop first)
   /\ inRun' = FALSE /\ intr' = FALSE
   /\ UNCHANGED <<status, info, imm, slot, polled, errhup, kready, clock, spin, ran, slept, runnable0, stopRc, intrStop, cur, done>>
 \* end of the program (the driver then cancels what it still holds); exit: nothing leaked (C14)
